@@ -96,6 +96,7 @@ class WebSocket(object):
             self.resource = "{}?{}".format(self.resource, _url.query)
 
         self.state = self.State()
+        self._connect_lock = threading.Lock()
 
     @classmethod
     def _detect_proxies(cls):
@@ -225,8 +226,12 @@ class WebSocket(object):
         :returns: An iterable of :class:`~lomond.event.Event` instances.
 
         """
-        self.reset()
-        self.state.session = session = session_class(self)
+        with self._connect_lock:
+            # A new state and the session that belongs to it, in one step
+            # (the session takes the state from the websocket); connect()
+            # on another thread must not get in between
+            self.reset()
+            self.state.session = session = session_class(self)
         run_generator = session.run(
             poll=poll,
             ping_rate=ping_rate,
